@@ -20,6 +20,8 @@ fn hist_scenarios(id: &str, tier: &str) -> Option<(Vec<Scenario>, Option<hist::O
         "C06" => Some((props::c06::scenarios(tier), Some(props::c06::oracle_factory()))),
         "C07" => Some((props::c07::scenarios(tier), Some(props::c07::oracle_factory()))),
         "C08" => Some((props::c08::scenarios(tier), Some(props::c08::oracle_factory()))),
+        "C18" => Some((props::c18::scenarios(tier), Some(props::c18::oracle_factory()))),
+        "C19" => Some((props::c19::scenarios(tier), Some(props::c19::oracle_factory()))),
         "C10" => Some((props::c10::scenarios(tier), None)),
         _ => None,
     }
@@ -65,6 +67,12 @@ fn main() {
                         "release profile with overflow checks off (the shipped arithmetic), panic=unwind so that a panic is observed".into(),
                     ],
                     extra: vec![],
+                    groups: {
+                        let mut g: Vec<String> = sc.iter().map(|s| format!("{}/{}", s.network, s.traces)).collect();
+                        g.sort();
+                        g.dedup();
+                        g
+                    },
                 };
                 hist::parent_main(&p, &expected)
             } else {
@@ -79,6 +87,8 @@ fn main() {
             let tier = args[3].as_str();
             let a = WorkerArgs { shard: args[4].parse().unwrap(), nshards: args[5].parse().unwrap(), budget_s: args[6].parse().unwrap(), seed: args[7].parse().unwrap(), validate_n: args[8].parse().unwrap() };
             if let Some((sc, or)) = hist_scenarios(id, tier) {
+                let group = args.iter().find_map(|x| x.strip_prefix("group=")).unwrap_or("").to_string();
+                let sc: Vec<Scenario> = sc.into_iter().filter(|s| group.is_empty() || format!("{}/{}", s.network, s.traces) == group).collect();
                 hist::worker_main(sc, or, &a);
             } else {
                 std::process::exit(2);
